@@ -12,7 +12,8 @@ Theorem C03_layout_pinned :
   /\ (forall n, chunk_rec_len n = chunk_payload_off + n + journal_rec_checksum_sz)
   /\ root_rec_len = journal_rec_len_sz + (journal_rec_tag_sz + journal_rec_kind_sz) + (journal_rec_tag_sz + journal_rec_addr_sz)
                     + (journal_rec_tag_sz + journal_rec_timestamp_sz) + journal_rec_checksum_sz
-  /\ journal_rec_len_sz = uint32_size.
+  /\ journal_rec_len_sz = uint32_size
+  /\ root_rec_len = root_hash_record_size.
 Proof. exact layout_pinned. Qed.
 Print Assumptions C03_layout_pinned.
 
